@@ -299,7 +299,8 @@ impl<K: Kt> Session<K> {
         }
         // table size as stored (header), read from the file itself
         let htx = self.dir.join(format!("{}.htx", self.name));
-        self.n_buckets = read_n_buckets(&htx).unwrap_or(0);
+        // (a freshly created table still has its header in the buffer: fall back to what the parameter promises)
+        self.n_buckets = read_n_buckets(&htx).filter(|n| *n > 0).unwrap_or_else(|| cfg.buckets.expected_n());
         self.refresh_budget();
         Ok(())
     }
